@@ -4,6 +4,7 @@ import PhyVerif.Driver.C15
 import PhyVerif.Driver.C07
 import PhyVerif.Driver.C01
 import PhyVerif.Driver.C19
+import PhyVerif.Driver.C20
 open Lean PhyVerif.Driver
 
 def dispatch (j : Json) : R Json := do
@@ -15,6 +16,7 @@ def dispatch (j : Json) : R Json := do
   | "C07" => runC07 op j
   | "C01" => runC01 op j
   | "C19" => runC19 op j
+  | "C20" => runC20 op j
   | _ => .error s!"unknown property {p}"
 
 def handle (line : String) : String :=
